@@ -132,6 +132,8 @@ def run(prop, propose=False, replay=None):
     n_inst = 0
     distinct = set()
     by_id = {t["id"]: t for t in traces}
+    # triage aid: VERIF_DUMP_FAILS=<file> writes every failing clause instance with the pattern that explains it (or null)
+    dump = open(os.environ["VERIF_DUMP_FAILS"], "w") if os.environ.get("VERIF_DUMP_FAILS") else None
     for tr in traces:
         meta = metas[tr["id"]]
         failset = {(s, c, sl) for (s, c, sl) in fails.get(tr["id"], [])}
@@ -149,7 +151,11 @@ def run(prop, propose=False, replay=None):
                 continue
             if bad:
                 distinct.add(CC.sha({k: v for k, v in feat.items() if k not in ("tb", "_replay")}))
-                if matcher.match(feat) is None:
+                hit = matcher.match(feat)
+                if dump is not None:
+                    dump.write(json.dumps({"id": tr["id"], "l": l, "cl": cl, "slot": slot, "pattern": hit["id"] if hit else None,
+                                           "feat": {k: v for k, v in feat.items() if k not in ("tb", "_replay")}}, default=str) + "\n")
+                if hit is None:
                     if propose:
                         inst_all.append(feat)
                         continue
